@@ -1,536 +1,5 @@
-import Pendulum.Gen.DTArith
-import Pendulum.Model.DTOps
-import Pendulum.Model.CalOps
-import Pendulum.Model.Interval
-import Pendulum.Proofs.AddDur
-import Pendulum.Proofs.CalRT
-import Pendulum.Proofs.GenTie
-/-! Tie between the *generated* translation of the arithmetic entry points of datetime.py / date.py
-(`Pendulum.Gen.DTArith`, regenerated from the source on every run by tools/gen_dtarith.py) and the hand models
-`DTOps.add` / `DTOps.addChecked` (Model/DTOps.lean), `CalOps` (Model/CalOps.lean) and `Interval` (Model/Interval.lean).
-
-The generated definitions take the callees as parameters (`Inst.sub_td`, `Inst.add_duration`, `Inst.convert_utc`).
-`Linked I v` states how those parameters relate to the model value `v` and to the model's `addDuration` / `inTz`
-(the callee-link hypotheses); `instOf v` is an instance that satisfies it (`linked_instOf`), so the hypotheses are
-satisfiable for every value. A request is read back with the model's `create` (`reqV`).
-A float `seconds=` argument worth `t` µs is read as `t` additional microseconds (float bridge, DESIGN §5). -/
-set_option linter.unusedSimpArgs false
-namespace Pendulum.DTArithGen
-open Pendulum Pendulum.Cal Pendulum.AddDur Pendulum.Zone Pendulum.DTOps Pendulum.CalOps
-open Pendulum.Gen.DTArith
-
-/-- `gen_tie` for this file; the block must also leave no goal open, so that an incomplete proof is reported under the
-    theorem's name too -/
-macro "dta_tie " n:str " => " t:tacticSeq : tactic =>
-  `(tactic| gen_tie $n "Gen/DTArith.lean (regenerated from datetime.py / date.py)" => (($t); done))
-
-/-! ### reading of the generated types -/
-
-/-- time of day in µs of (hour, minute, second, microsecond) -/
-def todOf (h mi s us : Int) : Int := ((h * 60 + mi) * 60 + s) * 1000000 + us
-
-/-- the wall value (µs since 1970-01-01T00:00) seven civil fields denote -/
-def toWall (n : N7) : Int := fieldsToWall n.year n.month n.day (todOf n.hour n.minute n.second n.microsecond)
-
-/-- the seven civil fields of a wall value -/
-def fromWall (w : Int) : N7 :=
-  let f := wallToFields w
-  ⟨f.1, f.2.1, f.2.2.1, f.2.2.2 / HOUR, f.2.2.2 % HOUR / MINUTE, f.2.2.2 % MINUTE / US, f.2.2.2 % US⟩
-
-theorem toWall_fromWall (w : Int) : toWall (fromWall w) = w := by
-  have h := fieldsToWall_wallToFields w
-  have e : todOf ((wallToFields w).2.2.2 / HOUR) ((wallToFields w).2.2.2 % HOUR / MINUTE)
-      ((wallToFields w).2.2.2 % MINUTE / US) ((wallToFields w).2.2.2 % US) = (wallToFields w).2.2.2 := by
-    unfold todOf HOUR MINUTE US; omega
-  unfold toWall fromWall
-  simp only [e]
-  exact h
-
-/-- whole seconds / additional microseconds of a `seconds=` amount -/
-def secS : Sec → Int
-  | .int n => n
-  | .us _ => 0
-def secU : Sec → Int
-  | .int _ => 0
-  | .us t => t
-
-theorem secS_neg (s : Sec) : secS (Sec.neg s) = -secS s := by cases s <;> simp [Sec.neg, secS]
-theorem secU_neg (s : Sec) : secU (Sec.neg s) = -secU s := by cases s <;> simp [Sec.neg, secU]
-
-/-- exception name → the model's error kind -/
-def errOf (s : String) : DTOps.Err :=
-  if s = "OverflowError" then .overflow
-  else if s = "NonExistingTime" then .nonExisting
-  else if s = "AmbiguousTime" then .ambiguous
-  else .valueError
-
-theorem errOf_name (e : DTOps.Err) : errOf e.name = e := by cases e <;> decide
-
-def liftAD : Except AddDur.Err Int → Except String N7
-  | .ok w => .ok (fromWall w)
-  | .error .valueError => .error "ValueError"
-  | .error .overflow => .error "OverflowError"
-
-def liftConv : Except DTOps.Err V → Except String (N7 × Bool)
-  | .ok r => .ok (fromWall r.w, r.fold)
-  | .error e => .error e.name
-
-/-- the value a request denotes, for an instance in zone `v.z`: `create` is the model's, the raw constructor keeps the
-    fields and the fold as given -/
-def reqV (v : V) : Req → Except DTOps.Err V
-  | .create y m d h mi s us fold => create v.z (toWall ⟨y, m, d, h, mi, s, us⟩) fold false
-  | .construct y m d h mi s us fold => .ok ⟨v.z, toWall ⟨y, m, d, h, mi, s, us⟩, fold⟩
-  | .date _ _ _ => .error .valueError
-
-def interp (v : V) : Except String Req → Except DTOps.Err V
-  | .ok r => reqV v r
-  | .error s => .error (errOf s)
-
-/-- **callee-link hypotheses**: how the parameters of the generated code relate to the model value `v` -/
-structure Linked (I : Inst) (v : V) : Prop where
-  fields : toWall ⟨I.year, I.month, I.day, I.hour, I.minute, I.second, I.microsecond⟩ = v.w
-  fold : I.fold = v.fold
-  hasTz : I.hasTz = (match v.z with | .naive => false | _ => true)
-  utcoffset : I.utcoffset = (match v.z.table with | some z => some (z.woff v.fold v.w) | none => none)
-  /-- native `datetime - timedelta`: OverflowError outside years 1..9999 -/
-  sub_td : ∀ n d, I.sub_td n d =
-    if inRange (toWall n - d) then .ok (fromWall (toWall n - d)) else .error "OverflowError"
-  /-- `helpers.add_duration` is the model's `addDuration` (tied to the source by `C03.add_duration_source_eq_model`) -/
-  add_duration : ∀ n y mo wk d h mi s us, I.add_duration n y mo wk d h mi s us =
-    liftAD (addDuration (toWall n) y mo wk d h mi (secS s) (us + secU s))
-  /-- `self.tz.convert(<UTC datetime>)` is the model's `inTz` from UTC into the instance's zone -/
-  convert_utc : ∀ n, I.convert_utc n = liftConv (inTz ⟨.fixed 0, toWall n, false⟩ v.z false)
-
-/-- the instance the generated code runs on, for a model value -/
-def instOf (v : V) : Inst where
-  year := (fromWall v.w).year
-  month := (fromWall v.w).month
-  day := (fromWall v.w).day
-  hour := (fromWall v.w).hour
-  minute := (fromWall v.w).minute
-  second := (fromWall v.w).second
-  microsecond := (fromWall v.w).microsecond
-  fold := v.fold
-  hasTz := match v.z with | .naive => false | _ => true
-  utcoffset := match v.z.table with | some z => some (z.woff v.fold v.w) | none => none
-  sub_td := fun n d => if inRange (toWall n - d) then .ok (fromWall (toWall n - d)) else .error "OverflowError"
-  add_duration := fun n y mo wk d h mi s us => liftAD (addDuration (toWall n) y mo wk d h mi (secS s) (us + secU s))
-  convert_utc := fun n => liftConv (inTz ⟨.fixed 0, toWall n, false⟩ v.z false)
-
-/-- the hypotheses are satisfiable, for every value -/
-theorem linked_instOf (v : V) : Linked (instOf v) v where
-  fields := toWall_fromWall v.w
-  fold := rfl
-  hasTz := rfl
-  utcoffset := rfl
-  sub_td := fun _ _ => rfl
-  add_duration := fun _ _ _ _ _ _ _ _ _ => rfl
-  convert_utc := fun _ => rfl
-
-/-! ### `DateTime.add` -/
-
-theorem fromUtc_fixed (off u : Int) : fromUtc (fixedZ off) u = ⟨u + off, false⟩ := by
-  simp [fromUtc, fixedZ, Z.off, Z.foldOf, offAt, foldAt]
-
-theorem fixed0_instant (w : Int) (f : Bool) : V.instant ⟨.fixed 0, w, f⟩ = w := by
-  simp [V.instant, V.offset, ZRef.table, fixedZ, Z.woff, wallOff]
-
-@[simp] theorem n7_eta (n : N7) : (⟨n.year, n.month, n.day, n.hour, n.minute, n.second, n.microsecond⟩ : N7) = n := rfl
-
-theorem add_eq (I : Inst) (v : V) (L : Linked I v) (hv : inRange v.w = true)
-    (y mo wk d h mi : Int) (s : Sec) (us : Int) :
-    interp v (dt_add I y mo wk d h mi s us) = addChecked v y mo wk d h mi (secS s) (us + secU s) := by
-  dta_tie "Pendulum.DTArithGen.add_eq" =>
-    obtain ⟨z, w, f⟩ := v
-    have hw := L.fields
-    have hu := L.utcoffset
-    have ht := L.hasTz
-    simp only [] at hw hu ht hv
-    by_cases hvar : (y ≠ 0 ∨ mo ≠ 0 ∨ wk ≠ 0 ∨ d ≠ 0)
-    · have hb : ((decide (y ≠ (0:Int))) || (decide (mo ≠ (0:Int))) || (decide (wk ≠ (0:Int))) || (decide (d ≠ (0:Int)))) = true := by
-        simp only [Bool.or_eq_true, decide_eq_true_eq]; omega
-      have hn : ¬ (y = 0 ∧ mo = 0 ∧ wk = 0 ∧ d = 0 ∧ inRange (w - V.offset ⟨z, w, f⟩) = false) := by omega
-      unfold dt_add
-      simp only [hb, L.add_duration, hw, Bool.or_true, Bool.true_or, Bool.or_false, Bool.false_or, Bool.and_true, Bool.true_and, Bool.and_false, Bool.false_and, Bool.not_true, Bool.not_false, Bool.or_self, Bool.and_self, if_true, Bool.false_eq_true, if_false]
-      unfold addChecked
-      rw [if_neg hn]
-      unfold DTOps.add
-      simp only [hvar, if_true]
-      cases hA : addDuration w y mo wk d h mi (secS s) (us + secU s) with
-      | error e => cases e <;> simp [liftAD, interp, errOf]
-      | ok r =>
-        simp only [liftAD, interp, reqV, n7_eta, toWall_fromWall]
-    · have hz : y = 0 ∧ mo = 0 ∧ wk = 0 ∧ d = 0 := by omega
-      obtain ⟨rfl, rfl, rfl, rfl⟩ := hz
-      unfold dt_add
-      simp only [ne_eq, not_true_eq_false, decide_false, Bool.or_true, Bool.true_or, Bool.or_false, Bool.false_or, Bool.and_true, Bool.true_and, Bool.and_false, Bool.false_and, Bool.not_true, Bool.not_false, Bool.or_self, Bool.and_self, if_true]
-      have hvar' : ¬((0:Int) ≠ 0 ∨ (0:Int) ≠ 0 ∨ (0:Int) ≠ 0 ∨ (0:Int) ≠ 0) := by omega
-      cases z with
-      | naive =>
-        simp only [ZRef.table] at hu
-        simp only [] at ht
-        simp only [hu, ht, td_truthy, L.add_duration, hw, Bool.or_true, Bool.true_or, Bool.or_false, Bool.false_or, Bool.and_true, Bool.true_and, Bool.and_false, Bool.false_and, Bool.not_true, Bool.not_false, Bool.or_self, Bool.and_self, if_true]
-        unfold addChecked DTOps.add
-        simp only [V.offset, ZRef.table, Int.sub_zero, hv, hvar', if_false, Bool.true_eq_false, and_false]
-        cases hA : addDuration w 0 0 0 0 h mi (secS s) (us + secU s) with
-        | error e => cases e <;> simp [liftAD, interp, errOf]
-        | ok r => simp [liftAD, interp, reqV, n7_eta, toWall_fromWall, create]
-      | fixed off =>
-        have ho : (fixedZ off).woff f w = off := by simp [fixedZ, Z.woff, wallOff]
-        simp only [ZRef.table, ho] at hu
-        simp only [] at ht
-        unfold addChecked DTOps.add
-        simp only [V.offset, ZRef.table, ho, hvar', if_false]
-        by_cases h0 : off = 0
-        · subst h0
-          simp only [hu, ht, td_truthy, L.add_duration, L.convert_utc, hw, Int.sub_zero, hv, Bool.or_true, Bool.true_or, Bool.or_false, Bool.false_or, Bool.and_true, Bool.true_and, Bool.and_false, Bool.false_and, Bool.not_true, Bool.not_false, Bool.or_self, Bool.and_self]
-          cases hA : addDuration w 0 0 0 0 h mi (secS s) (us + secU s) with
-          | error e => cases e <;> simp [liftAD, interp, errOf]
-          | ok r =>
-            simp only [liftAD, n7_eta, toWall_fromWall, DTOps.inTz, fixed0_instant, ZRef.table, fromUtc_fixed]
-            simp only [Int.add_zero]
-            by_cases hr : inRange r = true
-            · simp [hr, liftConv, interp, reqV, toWall_fromWall]
-            · simp [hr, liftConv, interp, errOf, Err.name]
-        · have ht2 : td_truthy (some off) = some off := by simp [td_truthy, h0]
-          simp only [hu, ht, ht2, L.sub_td, L.add_duration, L.convert_utc, hw, Bool.or_true, Bool.true_or, Bool.or_false, Bool.false_or, Bool.and_true, Bool.true_and, Bool.and_false, Bool.false_and, Bool.not_true, Bool.not_false, Bool.or_self, Bool.and_self]
-          by_cases hs : inRange (w - off) = true
-          · simp only [hs, if_true, toWall_fromWall, Bool.true_eq_false, and_false, if_false, Bool.not_true, Bool.false_eq_true]
-            cases hA : addDuration (w - off) 0 0 0 0 h mi (secS s) (us + secU s) with
-            | error e => cases e <;> simp [liftAD, interp, errOf]
-            | ok r =>
-              simp only [liftAD, n7_eta, toWall_fromWall, DTOps.inTz, fixed0_instant, ZRef.table, fromUtc_fixed]
-              by_cases hr : inRange (r + off) = true
-              · simp [hr, liftConv, interp, reqV, toWall_fromWall]
-              · simp [hr, liftConv, interp, errOf, Err.name]
-          · simp [hs, interp, errOf]
-      | named zt =>
-        simp only [ZRef.table] at hu
-        simp only [] at ht
-        unfold addChecked DTOps.add
-        simp only [V.offset, ZRef.table, hvar', if_false]
-        generalize zt.woff f w = off at hu ⊢
-        by_cases h0 : off = 0
-        · subst h0
-          simp only [hu, ht, td_truthy, L.add_duration, L.convert_utc, hw, Int.sub_zero, hv, Bool.or_true, Bool.true_or, Bool.or_false, Bool.false_or, Bool.and_true, Bool.true_and, Bool.and_false, Bool.false_and, Bool.not_true, Bool.not_false, Bool.or_self, Bool.and_self]
-          cases hA : addDuration w 0 0 0 0 h mi (secS s) (us + secU s) with
-          | error e => cases e <;> simp [liftAD, interp, errOf]
-          | ok r =>
-            simp only [liftAD, n7_eta, toWall_fromWall, DTOps.inTz, fixed0_instant, ZRef.table]
-            by_cases hr : inRange (fromUtc zt r).w = true
-            · simp [hr, liftConv, interp, reqV, toWall_fromWall]
-            · simp [hr, liftConv, interp, errOf, Err.name]
-        · have ht2 : td_truthy (some off) = some off := by simp [td_truthy, h0]
-          simp only [hu, ht, ht2, L.sub_td, L.add_duration, L.convert_utc, hw, Bool.or_true, Bool.true_or, Bool.or_false, Bool.false_or, Bool.and_true, Bool.true_and, Bool.and_false, Bool.false_and, Bool.not_true, Bool.not_false, Bool.or_self, Bool.and_self]
-          by_cases hs : inRange (w - off) = true
-          · simp only [hs, if_true, toWall_fromWall, Bool.true_eq_false, and_false, if_false, Bool.not_true, Bool.false_eq_true]
-            cases hA : addDuration (w - off) 0 0 0 0 h mi (secS s) (us + secU s) with
-            | error e => cases e <;> simp [liftAD, interp, errOf]
-            | ok r =>
-              simp only [liftAD, n7_eta, toWall_fromWall, DTOps.inTz, fixed0_instant, ZRef.table]
-              by_cases hr : inRange (fromUtc zt r).w = true
-              · simp [hr, liftConv, interp, reqV, toWall_fromWall]
-              · simp [hr, liftConv, interp, errOf, Err.name]
-          · simp [hs, interp, errOf]
-
-/-! ### `subtract`, `_add_timedelta_`, `_subtract_timedelta` -/
-
-/-- `DateTime.subtract` hands every keyword, negated, to `add` -/
-theorem subtract_eq (I : Inst) (y mo wk d h mi : Int) (s : Sec) (us : Int) :
-    dt_subtract I y mo wk d h mi s us = dt_add I (-y) (-mo) (-wk) (-d) (-h) (-mi) (Sec.neg s) (-us) := by
-  dta_tie "Pendulum.DTArithGen.subtract_eq" =>
-    simp only [dt_subtract]
-
-/-- `_add_timedelta_`: an Interval travels as its eight calendar/clock components, a Duration as its constructor
-    signature, a plain timedelta as `seconds=total_seconds()` -/
-theorem add_timedelta_eq (I : Inst) (δ : Operand) :
-    (δ.kind = .interval → dt_add_timedelta I δ =
-      dt_add I δ.years δ.months δ.weeks δ.remaining_days δ.hours δ.minutes (.int δ.remaining_seconds) δ.microseconds) ∧
-    (δ.kind = .duration → dt_add_timedelta I δ =
-      dt_add I δ.sig_years δ.sig_months δ.sig_weeks δ.sig_days δ.sig_hours δ.sig_minutes (.int δ.sig_seconds) δ.sig_microseconds) ∧
-    (δ.kind = .timedelta → dt_add_timedelta I δ = dt_add I 0 0 0 0 0 0 (.us δ.total_seconds) 0) := by
-  dta_tie "Pendulum.DTArithGen.add_timedelta_eq" =>
-    refine ⟨?_, ?_, ?_⟩ <;> intro hk <;> simp [dt_add_timedelta, hk]
-
-/-- `_subtract_timedelta`: an Interval → `subtract` of its components, a Duration → `_add_timedelta_(-delta)`,
-    a plain timedelta → `subtract(seconds=total_seconds())` -/
-theorem subtract_timedelta_eq (I : Inst) (δ nδ : Operand) :
-    (δ.kind = .interval → dt_subtract_timedelta I δ nδ =
-      dt_subtract I δ.years δ.months δ.weeks δ.remaining_days δ.hours δ.minutes (.int δ.remaining_seconds) δ.microseconds) ∧
-    (δ.kind = .duration → dt_subtract_timedelta I δ nδ = dt_add_timedelta I nδ) ∧
-    (δ.kind = .timedelta → dt_subtract_timedelta I δ nδ = dt_subtract I 0 0 0 0 0 0 (.us δ.total_seconds) 0) := by
-  dta_tie "Pendulum.DTArithGen.subtract_timedelta_eq" =>
-    refine ⟨?_, ?_, ?_⟩ <;> intro hk <;> simp [dt_subtract_timedelta, hk]
-
-/-! ### operators -/
-
-def isDelta (k : OKind) : Bool := k = .timedelta || k = .duration || k = .interval
-
-/-- `__add__` / `__radd__`: NotImplemented unless the operand is a timedelta; the native addition when called from
-    `astimezone`; otherwise `_add_timedelta_`. `__radd__` is `__add__` seen from a frame that is not `astimezone`. -/
-theorem op_add_eq (I : Inst) (caller : String) (o : Operand) :
-    dt_op_add I caller o =
-      (if !isDelta o.kind then .ok .notImplemented
-       else if caller = "astimezone" then .ok .super_add
-       else Except.map Res.value (dt_add_timedelta I o)) ∧
-    dt_op_radd I o = (if !isDelta o.kind then .ok .notImplemented else Except.map Res.value (dt_add_timedelta I o)) := by
-  dta_tie "Pendulum.DTArithGen.op_add_eq" =>
-    constructor
-    · cases hk : o.kind <;> by_cases hc : caller = "astimezone" <;> simp [dt_op_add, isDelta, hk, hc]
-    · cases hk : o.kind <;> simp [dt_op_radd, dt_op_add, isDelta, hk]
-
-/-- the endpoint a datetime operand becomes: itself when it already is an instance of the class, `pendulum.naive(<its
-    fields>)` when naive, `self.instance(other)` when aware -/
-def rebuilt (o : Operand) : Who :=
-  if o.kind = .pendulumDT then .other
-  else if o.aware then .instance_other
-  else .naive o.year o.month o.day o.hour o.minute o.second o.microsecond
-
-/-- `__sub__`: a timedelta → `_subtract_timedelta`; a datetime → `Interval(<rebuilt other>, self, absolute=False)`;
-    anything else → NotImplemented -/
-theorem op_sub_eq (I : Inst) (o no : Operand) :
-    dt_op_sub I o no =
-      (if isDelta o.kind then Except.map Res.value (dt_subtract_timedelta I o no)
-       else if o.kind = .datetime ∨ o.kind = .pendulumDT then .ok (.interval (rebuilt o) .self false)
-       else .ok .notImplemented) := by
-  dta_tie "Pendulum.DTArithGen.op_sub_eq" =>
-    cases hk : o.kind <;> cases ha : o.aware <;> simp [dt_op_sub, dt_diff, isDelta, rebuilt, hk, ha]
-
-/-- `__rsub__`: a datetime → `Interval(self, <rebuilt other>, absolute=False)`; anything else → NotImplemented -/
-theorem op_rsub_eq (I : Inst) (o : Operand) :
-    dt_op_rsub I o =
-      (if o.kind = .datetime ∨ o.kind = .pendulumDT then .ok (.interval .self (rebuilt o) false)
-       else .ok .notImplemented) := by
-  dta_tie "Pendulum.DTArithGen.op_rsub_eq" =>
-    cases hk : o.kind <;> cases ha : o.aware <;> simp [dt_op_rsub, dt_diff, rebuilt, hk, ha]
-
-/-- `diff(dt, abs)`: `Interval(self, dt, absolute=abs)`, `dt` defaulting to now in the instance's zone -/
-theorem diff_eq (me : Who) (dt : Option Who) (abs : Bool) :
-    dt_diff me dt abs = .interval me (dt.getD (.now me)) abs := by
-  dta_tie "Pendulum.DTArithGen.diff_eq" =>
-    cases dt <;> simp [dt_diff]
-
-/-! ### the same on the model level -/
-
-theorem subtract_model (I : Inst) (v : V) (L : Linked I v) (hv : inRange v.w = true)
-    (y mo wk d h mi : Int) (s : Sec) (us : Int) :
-    interp v (dt_subtract I y mo wk d h mi s us) =
-      addChecked v (-y) (-mo) (-wk) (-d) (-h) (-mi) (-(secS s)) (-(us + secU s)) := by
-  rw [subtract_eq, add_eq I v L hv, secS_neg, secU_neg]
-  congr 1; omega
-
-/-- the operand a model Duration is: what `_add_timedelta_` / `_subtract_timedelta` read from it -/
-def opOfDur (d : Dur) : Operand where
-  kind := .duration
-  aware := false
-  year := 0
-  month := 0
-  day := 0
-  hour := 0
-  minute := 0
-  second := 0
-  microsecond := 0
-  years := d.years
-  months := d.months
-  weeks := d.weeks
-  days := d.days
-  remaining_days := d.rdays
-  hours := d.hours
-  minutes := d.minutes
-  remaining_seconds := d.rsecs
-  microseconds := d.us
-  sig_years := d.sig.years
-  sig_months := d.sig.months
-  sig_weeks := d.sig.weeks
-  sig_days := d.sig.days
-  sig_hours := d.sig.hours
-  sig_minutes := d.sig.minutes
-  sig_seconds := d.sig.seconds
-  sig_microseconds := d.sig.micros
-  total_seconds := d.sig.totalUs
-
-/-- `add(**sig)` with the range limit of the intermediate value -/
-def addSigC (v : V) (s : Sig) : Except DTOps.Err V :=
-  addChecked v s.years s.months s.weeks s.days s.hours s.minutes s.seconds s.micros
-
-theorem addSigC_eq (v : V) (s : Sig) (h : inRange (v.w - v.offset) = true) : addSigC v s = addSig v s := by
-  unfold addSigC addSig addChecked; simp [h]
-
-/-- `dt + d` for a Duration: `add(**d._signature)` -/
-theorem add_duration_model (I : Inst) (v : V) (L : Linked I v) (hv : inRange v.w = true) (d : Dur) :
-    interp v (dt_add_timedelta I (opOfDur d)) = addSigC v d.sig := by
-  rw [(add_timedelta_eq I (opOfDur d)).2.1 rfl, add_eq I v L hv]
-  simp [opOfDur, addSigC, secS, secU]
-
-/-- `dt - d` for a Duration: `dt + (-d)`, `-d` being the operand `Duration.__neg__` returns -/
-theorem sub_duration_model (I : Inst) (v : V) (L : Linked I v) (hv : inRange v.w = true) (d : Dur) (nδ : Operand)
-    (hn : nδ = opOfDur (neg d)) :
-    interp v (dt_subtract_timedelta I (opOfDur d) nδ) = addSigC v (neg d).sig := by
-  rw [(subtract_timedelta_eq I (opOfDur d) nδ).2.1 rfl, hn, add_duration_model I v L hv]
-
-/-- `dt ± td` for a plain timedelta of `t` µs: the instant / own clock moves by exactly `± t` µs -/
-theorem timedelta_model (I : Inst) (v : V) (L : Linked I v) (hv : inRange v.w = true) (δ nδ : Operand)
-    (hk : δ.kind = .timedelta) :
-    interp v (dt_add_timedelta I δ) = addChecked v 0 0 0 0 0 0 0 δ.total_seconds ∧
-    interp v (dt_subtract_timedelta I δ nδ) = addChecked v 0 0 0 0 0 0 0 (-δ.total_seconds) := by
-  constructor
-  · rw [(add_timedelta_eq I δ).2.2 hk, add_eq I v L hv]; simp [secS, secU]
-  · rw [(subtract_timedelta_eq I δ nδ).2.2 hk, subtract_model I v L hv]; simp [secS, secU]
-
-/-- `dt ± iv` for an Interval: `add` / `subtract` of the eight components the Interval reports -/
-theorem interval_model (I : Inst) (v : V) (L : Linked I v) (hv : inRange v.w = true) (δ nδ : Operand)
-    (hk : δ.kind = .interval) :
-    interp v (dt_add_timedelta I δ) =
-      addChecked v δ.years δ.months δ.weeks δ.remaining_days δ.hours δ.minutes δ.remaining_seconds δ.microseconds ∧
-    interp v (dt_subtract_timedelta I δ nδ) =
-      addChecked v (-δ.years) (-δ.months) (-δ.weeks) (-δ.remaining_days) (-δ.hours) (-δ.minutes)
-        (-δ.remaining_seconds) (-δ.microseconds) := by
-  constructor
-  · rw [(add_timedelta_eq I δ).1 hk, add_eq I v L hv]; simp [secS, secU]
-  · rw [(subtract_timedelta_eq I δ nδ).1 hk, subtract_model I v L hv]; simp [secS, secU]
-
-/-! ### `__sub__` / `__rsub__` with a datetime: the Interval they build (Model/Interval.lean) -/
-
-/-- which model value an endpoint is: `ov` = the operand as it stands, `inst` = what `self.instance(other)` returns -/
-def whoV (sv ov : V) (inst : Except DTOps.Err V) : Who → Except DTOps.Err V
-  | .self => .ok sv
-  | .other => .ok ov
-  | .naive y m d h mi s us => .ok ⟨.naive, toWall ⟨y, m, d, h, mi, s, us⟩, true⟩
-  | .instance_other => inst
-  | _ => .error .valueError
-
-/-- length in µs of the Interval an operator result denotes -/
-def resLen (sv ov : V) (inst : Except DTOps.Err V) (same : Bool) : Res → Except DTOps.Err Int
-  | .interval a b abs =>
-    match whoV sv ov inst a, whoV sv ov inst b with
-    | .ok x, .ok y => Interval.new x y same abs
-    | .error e, _ => .error e
-    | _, .error e => .error e
-  | _ => .error .valueError
-
-theorem new_naive_fold (w : Int) (f g : Bool) (e : V) (same abs : Bool) :
-    Interval.new ⟨.naive, w, f⟩ e same abs = Interval.new ⟨.naive, w, g⟩ e same abs ∧
-    Interval.new e ⟨.naive, w, f⟩ same abs = Interval.new e ⟨.naive, w, g⟩ same abs := by
-  simp [Interval.new, Interval.gt, Interval.delta, Interval.strip, Interval.aware, V.instant, V.offset, ZRef.table]
-
-/-- `self - other` and `other - self` (reflected) for a datetime operand are the model's `sub` / `subNative` /
-    `diff` / `rsubNative`: an instance of the class is used as it stands, a native value is first rebuilt (naive: from
-    its fields; aware: through `instance`, here the model's `instanceOf`) -/
-theorem sub_datetime_model (I : Inst) (sv ov : V) (o no : Operand) (same : Bool)
-    (hf : toWall ⟨o.year, o.month, o.day, o.hour, o.minute, o.second, o.microsecond⟩ = ov.w)
-    (ha : o.aware = Interval.aware ov) :
-    (o.kind = .pendulumDT →
-      (dt_op_sub I o no).toOption.map (resLen sv ov (.ok ov) same) = some (Interval.sub sv ov same) ∧
-      (dt_op_rsub I o).toOption.map (resLen sv ov (.ok ov) same) = some (Interval.diff sv ov same false)) ∧
-    (o.kind = .datetime →
-      (dt_op_sub I o no).toOption.map (resLen sv ov (Interval.instanceOf ov) same) = some (Interval.subNative sv ov same) ∧
-      (dt_op_rsub I o).toOption.map (resLen sv ov (Interval.instanceOf ov) same) = some (Interval.rsubNative sv ov same)) := by
-  obtain ⟨oz, ow, ofl⟩ := ov
-  simp only [] at hf
-  constructor
-  · intro hk
-    simp [op_sub_eq, op_rsub_eq, isDelta, rebuilt, hk, resLen, whoV, Interval.sub, Interval.diff, Except.toOption]
-  · intro hk
-    cases oz with
-    | naive =>
-      have ha' : o.aware = false := by simpa [Interval.aware] using ha
-      have n1 := new_naive_fold ow true ofl sv same false
-      simp [op_sub_eq, op_rsub_eq, isDelta, rebuilt, hk, ha', resLen, whoV, hf, Interval.subNative, Interval.rsubNative,
-        Interval.instanceOf, create, Interval.sub, Interval.diff, Except.toOption, n1.1, n1.2]
-    | fixed off =>
-      have ha' : o.aware = true := by simpa [Interval.aware] using ha
-      simp [op_sub_eq, op_rsub_eq, isDelta, rebuilt, hk, ha', resLen, whoV, Interval.subNative, Interval.rsubNative,
-        Interval.instanceOf, create, Interval.sub, Interval.diff, Except.toOption]
-    | named zt =>
-      have ha' : o.aware = true := by simpa [Interval.aware] using ha
-      simp only [op_sub_eq, op_rsub_eq, isDelta, rebuilt, hk, ha', resLen, whoV, Interval.subNative, Interval.rsubNative,
-        Interval.sub, Interval.diff, Except.toOption]
-      cases Interval.instanceOf ⟨.named zt, ow, ofl⟩ <;> simp [resLen, whoV]
-
-/-! ### Date -/
-
-/-- day number (days since 1970-01-01) of three civil fields, and back -/
-def toDay (n : N3) : Int := ymd2ord n.year n.month n.day - epochOrd
-def fromDay (k : Int) : N3 := ⟨(ord2ymd (k + epochOrd)).1, (ord2ymd (k + epochOrd)).2.1, (ord2ymd (k + epochOrd)).2.2⟩
-
-theorem toDay_fromDay (k : Int) : toDay (fromDay k) = k := by
-  have h := (ymd2ord_ord2ymd (k + epochOrd)).1
-  simp only [toDay, fromDay, h]; omega
-
-@[simp] theorem n3_eta (n : N3) : (⟨n.year, n.month, n.day⟩ : N3) = n := rfl
-
-def liftAD3 : Except AddDur.Err Int → Except String N3
-  | .ok w => .ok (fromDay (w / DAY))
-  | .error .valueError => .error "ValueError"
-  | .error .overflow => .error "OverflowError"
-
-/-- callee link for a Date with day number `n`: `add_duration` on a native `date` is the model's on that day's midnight -/
-structure DLinked (D : DateInst) (n : Int) : Prop where
-  fields : toDay ⟨D.year, D.month, D.day⟩ = n
-  add_duration : ∀ m y mo wk d, D.add_duration m y mo wk d 0 0 (.int 0) 0 =
-    liftAD3 (addDuration (toDay m * DAY) y mo wk d 0 0 0 0)
-
-def dinstOf (n : Int) : DateInst where
-  year := (fromDay n).year
-  month := (fromDay n).month
-  day := (fromDay n).day
-  add_duration := fun m y mo wk d h mi s us => liftAD3 (addDuration (toDay m * DAY) y mo wk d h mi (secS s) (us + secU s))
-
-theorem dlinked_dinstOf (n : Int) : DLinked (dinstOf n) n where
-  fields := toDay_fromDay n
-  add_duration := fun _ _ _ _ _ => rfl
-
-/-- the day number a Date request denotes -/
-def dinterp : Except String Req → Except AddDur.Err Int
-  | .ok (.date y m d) => .ok (toDay ⟨y, m, d⟩)
-  | .ok _ => .error .valueError
-  | .error s => .error (if s = "OverflowError" then .overflow else .valueError)
-
-theorem date_add_eq (D : DateInst) (n : Int) (L : DLinked D n) (y mo wk d : Int) :
-    dinterp (date_add D y mo wk d) = dateAdd n y mo wk d := by
-  dta_tie "Pendulum.DTArithGen.date_add_eq" =>
-    have hf := L.fields
-    simp only [date_add, L.add_duration, hf, dateAdd]
-    cases hA : addDuration (n * DAY) y mo wk d 0 0 0 0 with
-    | error e => cases e <;> simp [liftAD3, dinterp]
-    | ok r => simp [liftAD3, dinterp, toDay_fromDay]
-
-theorem date_subtract_eq (D : DateInst) (y mo wk d : Int) :
-    date_subtract D y mo wk d = date_add D (-y) (-mo) (-wk) (-d) := by
-  dta_tie "Pendulum.DTArithGen.date_subtract_eq" =>
-    simp only [date_subtract]
-
-/-- `Date._add_timedelta` / `_subtract_timedelta`: a Duration (or Interval) travels as its calendar components (the
-    time part is dropped), a plain timedelta as its `days` -/
-theorem date_timedelta_eq (D : DateInst) (δ : Operand) :
-    ((δ.kind = .duration ∨ δ.kind = .interval) →
-      date_add_timedelta D δ = date_add D δ.years δ.months δ.weeks δ.remaining_days ∧
-      date_subtract_timedelta D δ = date_subtract D δ.years δ.months δ.weeks δ.remaining_days) ∧
-    (δ.kind = .timedelta →
-      date_add_timedelta D δ = date_add D 0 0 0 δ.days ∧ date_subtract_timedelta D δ = date_subtract D 0 0 0 δ.days) := by
-  dta_tie "Pendulum.DTArithGen.date_timedelta_eq" =>
-    constructor
-    · intro hk; rcases hk with hk | hk <;> simp [date_add_timedelta, date_subtract_timedelta, hk]
-    · intro hk; simp [date_add_timedelta, date_subtract_timedelta, hk]
-
-/-- `Date.__add__` / `Date.__sub__`: timedelta → the methods above; a date (or datetime) on the right of `-` →
-    `Interval(<Date of its fields>, self, absolute=False)`; anything else → NotImplemented -/
-theorem date_op_eq (D : DateInst) (o : Operand) :
-    date_op_add D o = (if !isDelta o.kind then .ok .notImplemented else Except.map Res.value (date_add_timedelta D o)) ∧
-    date_op_sub D o =
-      (if isDelta o.kind then Except.map Res.value (date_subtract_timedelta D o)
-       else if o.kind = .date ∨ o.kind = .datetime ∨ o.kind = .pendulumDT then
-         .ok (.interval (.date o.year o.month o.day) (.as_date .self) false)
-       else .ok .notImplemented) := by
-  dta_tie "Pendulum.DTArithGen.date_op_eq" =>
-    constructor <;> cases hk : o.kind <;> simp [date_op_add, date_op_sub, date_diff, isDelta, hk]
-
-/-- Duration operands on the model level: `date ± d` are the model's `dateAddDur` / `dateSubDur` -/
-theorem date_duration_model (D : DateInst) (n : Int) (L : DLinked D n) (d : Dur) :
-    dinterp (date_add_timedelta D (opOfDur d)) = dateAddDur n d ∧
-    dinterp (date_subtract_timedelta D (opOfDur d)) = dateSubDur n d := by
-  have h := (date_timedelta_eq D (opOfDur d)).1 (Or.inl rfl)
-  rw [h.1, h.2, date_subtract_eq, date_add_eq D n L, date_add_eq D n L]
-  exact ⟨rfl, rfl⟩
-
-end Pendulum.DTArithGen
+import Pendulum.Proofs.DTArithGenAdd
+import Pendulum.Proofs.DTArithGenOps
+import Pendulum.Proofs.DTArithGenSub
+import Pendulum.Proofs.DTArithGenDate
+/-! umbrella: the tie proofs for `Gen/DTArith.lean` live in DTArithGenBase/Add/Ops/Sub/Date -/
